@@ -70,8 +70,12 @@ def check_spec(spec, res, variant):
     else:
         if out["status"] != ref["status"] or out["error"] != ref["error"]:
             problems.append(f"failing run: async(max_concurrency={mc}, yields={yields}) reports {out['status']} {out['error']}, sync reports {ref['status']} {ref['error']}")
-    # continue mode: every partial value of the sync runner is returned identically by the async runner
-    if fail:
+    # continue mode: every partial value of the sync runner is returned identically by the async runner.
+    # (Scope: programs without a signature default on an upstream-fed parameter. With such a default a node may start
+    # early and legitimately re-run in the failing step; the async runner applies that successful sibling, the sync
+    # runner stops at the first failure, so the two partial values of that name differ by construction - DESIGN 9.4.)
+    early_start = spec["family"] == "dag" and any(p in dag.produced_names(spec) and p in nd["defaults"] for nd in spec["nodes"] for p in nd["params"])
+    if fail and not early_start:
         g2, _ = build(spec, fail=fail, sync=True, order=order)
         g3, _ = build(spec, yields=yields, fail=fail, order=order)
         ps = run_sync(g2, inputs_of(spec), error_handling="continue")
